@@ -28,7 +28,7 @@ from bacpypes.service.object import ReadWritePropertyServices
 
 Slots = ArrayOf(Unsigned)
 Ranges = ArrayOf(PriorityValue)
-MAXN = 3
+MAXN = 5 if __import__("os").environ.get("VERIF_TIER") == "thorough" else 3        # array lengths covered (structural bound)
 
 def TheObject(monitored=False):
     def build(b, name):
